@@ -153,12 +153,15 @@ class Number(Parser):
         stream.take()
         while stream.peek().isdecimal():
             out += stream.take()
-        try:
-            value = int(out)
-        except ValueError:
-            # CPython refuses to convert very long digit strings
+        # Numbers in RING are counts (atoms, bonds, electrons, ring sizes).
+        # The readers add them up, mix them with 1.5 (aromatic bond order)
+        # and print them: an int of more than 308 digits cannot become a
+        # float and CPython refuses to convert or print one of more than
+        # 4300 digits, so a digit run that cannot be a count is a syntax
+        # error here.
+        if len(out) > 18:
             stream.error('<number>')
-        output.append(value)
+        output.append(int(out))
 
     def __str__(self):
         return '<number>'
